@@ -20,6 +20,30 @@ missed = {
  "C17-2": "exit 2 at first (fmt.Fprintln had no engine intrinsic, so http.Error ended the path as unsupported); intrinsic added",
  "C18-2": "missed at first: the virtual FileInfo reported a dangling symlink as a regular file; Mode() now carries ModeSymlink",
  "C19-2": "missed at first: Position.Contains had no harness; HarnessC19Cursor added (symbolic cursor)",
+ "C03-4": "missed at first: every loop pass printed something before its control directive; HarnessC03ForSym places the directive first in the body too and adds @breakIf/@continueIf(i != k)",
+ "C09-4": "exit 2 at first (reflect.Value.FieldByIndex had no engine model); model added (with package reflect's two read-only flags), and C09's data kinds gained structs that embed a nil / non-nil pointer",
+ "C11-3": "missed at first: purity was checked on the receiver of one call only; HarnessC11Arr gained append-twice (receiver with spare capacity) and slice-then-append, asserting that a later call does not change an earlier result",
+ "C11-4": "same change as C09-3 (repeat guard overflows for a multi-byte receiver): caught by C09 (Builtins); C11's repeat harness keeps counts small",
+ "C13-3": "missed at first: no multi-line token began with its line break; token kinds 'block-style comment', 'text run starting with a break' and 'string starting with a break' added",
+ "C13-4": "missed at first: run-time faults inside component/layout files were outside the bound; HarnessC13Files asserts their line (not their path)",
+ "C16-3": "missed at first: the baseline probe ran on the same Template as the history, so a cache filled by the first call was shared by both; the baseline now runs on a separately loaded identical Template",
+ "C16-4": "missed at first: as C16-3, plus the custom error page never failed; the error-page configuration is now a choice between a valid and a failing page",
+ "C18-3": "missed at first: TemplateDir spellings ending in '.', '..' and a dot-named sub-directory were missing; added",
+ "C18-4": "missed at first: no template name ended in the extension itself; HarnessC18DoubleExt added (layout and component 'x.tw.tw', with and without a shorter sibling)",
+ "C19-3": "missed at first: free byte strings of 4 bytes cannot hold a complete comment; HarnessC19Splice puts K symbolic bytes into concrete construct halves (inside a comment, after @else/@break/@continue, inside a string)",
+ "C19-4": "missed at first: as C19-3 (the bytes after '@else' were never letters followed by more source)",
+ "C04-3": "missed at first: no nested block was the @else block of a loop that makes no pass; scope kinds added for @each and @for",
+ "C04-4": "missed at first: loop variables were bound once; HarnessC04LoopVar iterates a visible name over two elements of every type pair",
+ "C06-3": "missed at first: block-form inserts always had a body; the empty form '@insert(n)@end' added",
+ "C10-4": "missed at first: each literal was used once; HarnessC10Reuse uses one literal several times with and without raw() in five orders",
+ "C12-4": "missed at first: no map held two keys differing only in the case of the first letter; map M gained 'k' and 'K'",
+ "C14-3": "exit 2 at first (sort.Slice had no engine model); insertion-sort model added (what package sort runs up to 12 elements), and the data/object literals gained names that differ only in letter case",
+ "C14-4": "exit 2 at first (sort.Slice, as C14-3); caught by HarnessC14Tree's tree 0 (three undefined inserts on one line) once modelled",
+ "C15-3": "engine flagged the unsynchronised memo store at first but the native pair did not race because both solo calls had already filled the cache (exit 2); 25 of the 60 native concurrent iterations now run as the first two calls on a freshly loaded Template",
+ "C15-4": "exit 2 at first (sync.Pool had no engine model); model added (Get returns the value put last, else New()), a page that fails inside a loop pass added, and the check gained the assertion for the schedule 'first call, then second call': the second call returns what it returns alone on a fresh Template",
+ "C17-3": "missed at first: the failed page's data never clashed with the error page; the custom error page now assigns a variable that the failed page's data binds with another type, and a page whose data is itself unsupported was added",
+ "C17-4": "missed at first: NewTemplate was called once per path; an earlier NewTemplate with the opposite debug setting is now a choice",
+ "C20-3": "missed at first: receivers were literals or template variables; receivers from the Go data and from built-in/operator results added",
 }
 rows = []
 for d in sorted(glob.glob(os.path.join(here, "seeded", "C*-*"))):
